@@ -450,6 +450,16 @@ def name_expr(ctx, env, node, want):
         if node.values[1].value == "":
             raise ctx.err(node, "`x or \"\"`")
         return f"(name_or {a} {coq_str_lit(ctx, node, node.values[1].value)})", "str"
+    if isinstance(node, ast.IfExp) and isinstance(node.body, ast.Constant) and isinstance(node.body.value, str) \
+            and isinstance(node.orelse, ast.Attribute) and node.orelse.attr == "_name":
+        # `<str> if x._name is None or x._name == "" else x._name` (the form since fix F46: only None and '' are "no name")
+        src = ast.unparse(node.orelse)
+        if ast.unparse(node.test) != f"{src} is None or {src} == ''":
+            raise ctx.err(node, f"`<str> if <test> else {src}`: the test is not `{src} is None or {src} == ''`")
+        a, ta = expr(ctx, env, node.orelse)
+        if ta not in ("ostr", "ncol") or node.body.value == "":
+            raise ctx.err(node, f"default-name conditional on a {ta}")
+        return f"(name_or {a} {coq_str_lit(ctx, node, node.body.value)})", "str"
     if isinstance(node, ast.Attribute) and isinstance(node.ctx, ast.Load) and node.attr == "_name":
         t, ty = expr(ctx, env, node.value)
         if ty != "ncol":
@@ -2045,14 +2055,20 @@ def translate_aggnames(table_py: Path):
                     and a.values[0].attr == "_name"):
                 keysites.append(a)
                 continue
+            if (isinstance(a, ast.IfExp) and isinstance(a.body, ast.Constant) and isinstance(a.orelse, ast.Attribute)
+                    and isinstance(a.orelse.value, ast.Name) and a.orelse.attr == "_name"):
+                keysites.append(a)
+                continue
             raise err(c, f"uniquify is called on `{ast.unparse(a)}`: not a key name, a built name or a given name")
-        if not keysites or len({ast.unparse(a.values[1]) for a in keysites}) != 1:
+        _lit = lambda a: ast.unparse(a.values[1] if isinstance(a, ast.BoolOp) else a.body)
+        _col = lambda a: (a.values[0] if isinstance(a, ast.BoolOp) else a.orelse).value.id
+        if not keysites or len({_lit(a) for a in keysites}) != 1 or len({type(a) for a in keysites}) != 1:
             raise err(M, f"expected the key columns to be named `col._name or <one literal>` (found {len(keysites)} sites)")
         a = keysites[0]
         k = Kernel(f"{meth} key name", f"{meth}_key_name", ["ncol"], "str", cls="Table", name_forms=True)
         k.node = M
         ctx = Ctx(table_py, k, {}, notes)
-        col = a.values[0].value.id
+        col = _col(a)
         t, ty = expr(ctx, {col: (mangle(ctx, a, col), "ncol")}, a)
         parts.append(f"(* table.py:{a.lineno} Table.{meth}: the name of a key column, `{ast.unparse(a)}` *)\n"
                      f"Definition {meth}_key_name ({mangle(ctx, a, col)} : option str) : str :=\n  {coerce(ctx, a, t, ty, 'str')}.\n")
